@@ -1,6 +1,6 @@
 """Shared machinery of the /verif checks: building the harness against /repo's working tree,
 building Coq targets, evaluating the Coq model on harness cases, evidence, violations."""
-import json, os, re, subprocess, sys, time, hashlib, random
+import json, os, re, signal, subprocess, sys, time, hashlib, random
 
 ROOT = os.path.dirname(os.path.dirname(os.path.abspath(__file__)))
 COQ = os.path.join(ROOT, "coq")
@@ -39,13 +39,23 @@ def log(*a):
 
 
 def sh(cmd, timeout=600, cwd=None, env=None, inp=None):
+    """run a command; on timeout the whole process group is killed (a `sh -c coqc …` wrapper would otherwise leave coqc running)"""
     t0 = time.time()
+    p = subprocess.Popen(cmd, shell=isinstance(cmd, str), cwd=cwd, env=env or ENV, stdin=subprocess.PIPE if inp is not None else subprocess.DEVNULL,
+                         stdout=subprocess.PIPE, stderr=subprocess.PIPE, text=True, start_new_session=True)
     try:
-        p = subprocess.run(cmd, shell=isinstance(cmd, str), cwd=cwd, env=env or ENV, input=inp,
-                           capture_output=True, text=True, timeout=timeout)
-        return p.returncode, p.stdout, p.stderr, time.time() - t0
-    except subprocess.TimeoutExpired as e:
-        return 124, (e.stdout or b"").decode() if isinstance(e.stdout, bytes) else (e.stdout or ""), "TIMEOUT", time.time() - t0
+        out, err = p.communicate(inp, timeout=timeout)
+        return p.returncode, out, err, time.time() - t0
+    except subprocess.TimeoutExpired:
+        try:
+            os.killpg(p.pid, signal.SIGKILL)
+        except OSError:
+            pass
+        try:
+            out, err = p.communicate(timeout=10)
+        except Exception:
+            out, err = "", ""
+        return 124, out or "", "TIMEOUT", time.time() - t0
 
 
 # ------------------------------------------------------------------ harness
@@ -173,14 +183,22 @@ def axioms_allowed(ax):
     return bad
 
 
-def coq_eval_failing(tag, header, cases, shard=400, timeout=900):
+def coq_eval_failing(tag, header, cases, shard=400, timeout=900, max_chars=1_000_000):
     """cases: list of Coq terms of type bool. Evaluates them with vm_compute in sharded coqc runs
     and returns the sorted list of indices whose term evaluated to false."""
     import concurrent.futures as cf
     d = os.path.join(COQ, "cases")
     os.makedirs(d, exist_ok=True)
     tag = "%s_p%d" % (tag, os.getpid())      # several checks may run concurrently
-    shards = [(i, cases[i:i + shard]) for i in range(0, len(cases), shard)]
+    # contiguous shards of at most `shard` cases and about `max_chars` characters: coqc's memory grows with the size of the literal
+    # terms it has to parse (1000 histories of 200 operations in one file took 17 GB and 15 min; the same cases in 1 MB files take seconds)
+    shards, cur, cur_chars, base = [], [], 0, 0
+    for i, c in enumerate(cases):
+        if cur and (len(cur) >= shard or cur_chars + len(c) > max_chars):
+            shards.append((base, cur)); cur, cur_chars, base = [], 0, i
+        cur.append(c); cur_chars += len(c)
+    if cur:
+        shards.append((base, cur))
 
     def one(arg):
         base, cs = arg
